@@ -1,5 +1,6 @@
 import DSV.Model.Filter
 import DSV.Model.Codec
+import DSV.Model.FilterParse
 /-!
 Line-protocol driver: one request per line on stdin, one reply per line on stdout.
 First token selects the model function.  Imports only `DSV.Model.*` (core Lean), so it links natively.
@@ -11,6 +12,26 @@ namespace Drv
 def splitWs (s : String) : List String := (s.splitOn " ").filter (· ≠ "")
 
 def parseInt? (s : String) : Option Int := s.toInt?
+
+def hexVal (c : Char) : Option Nat :=
+  if '0' ≤ c ∧ c ≤ '9' then some (c.toNat - '0'.toNat)
+  else if 'a' ≤ c ∧ c ≤ 'f' then some (c.toNat - 'a'.toNat + 10)
+  else if 'A' ≤ c ∧ c ≤ 'F' then some (c.toNat - 'A'.toNat + 10)
+  else none
+
+/-- percent-decoding to bytes ("%" alone = empty string) -/
+def pctBytes : List Char → ByteArray → Option ByteArray
+  | [], acc => some acc
+  | '%' :: a :: b :: rest, acc =>
+      match hexVal a, hexVal b with
+      | some x, some y => pctBytes rest (acc.push (UInt8.ofNat (x * 16 + y)))
+      | _, _ => none
+  | ['%'], acc => some acc
+  | c :: rest, acc => if c.toNat < 128 then pctBytes rest (acc.push (UInt8.ofNat c.toNat)) else none
+
+def pctDecodeBytes (s : String) : Option ByteArray := pctBytes s.toList ByteArray.empty
+
+def pctDecode (s : String) : Option String := (pctDecodeBytes s).bind String.fromUTF8?
 
 /-! #### filters -/
 open DSV.Filter in
@@ -72,6 +93,43 @@ def handleFilter (cmd : String) (args : List String) : String :=
       | _, _ => "bad-op"
   | _, _ => "bad-op"
 
+open DSV.Filter DSV.FilterParse in
+def parsePyVal (s : String) : Option PyVal :=
+  if s = "O" then some .otherType
+  else if s.startsWith "S:" then (parseV (s.drop 2).toString).map .scalar
+  else if s.startsWith "Q:" then (parseVs (s.drop 2).toString).map .seq
+  else none
+
+open DSV.Filter DSV.FilterParse in
+def parseCond (args : List String) : Option PyCond :=
+  match args with
+  | ["none"] => some .none
+  | ["plain", v] => (parsePyVal v).map .plain
+  | ["t2", "nonstr", v] => (parsePyVal v).map (.tuple2 .nonStr)
+  | ["t2", "unhash", v] => (parsePyVal v).map (.tuple2 .unhashable)
+  | ["t2", op, v] =>
+      if op.startsWith "s=" then do
+        let o ← pctDecode (op.drop 2).toString
+        let pv ← parsePyVal v
+        pure (.tuple2 (.str o) pv)
+      else none
+  | _ => none
+
+open DSV.Filter in
+def showOp : Op → String
+  | .eq => "eq" | .ne => "ne" | .lt => "lt" | .le => "le" | .gt => "gt" | .ge => "ge"
+  | .isIn => "in" | .notIn => "notin" | .isNull => "isnull" | .isNotNull => "notnull"
+
+open DSV.Filter DSV.FilterParse in
+def handleCompile (args : List String) : String :=
+  match parseCond args with
+  | none => "bad-op"
+  | some c =>
+    match compile 0 c with
+    | none => "raise"
+    | some es => "ok " ++ ";".intercalate (es.map fun e =>
+        showOp e.op ++ ":" ++ showV e.lit ++ ":" ++ (if e.set.isEmpty then "-" else ",".intercalate (e.set.map showV)))
+
 /-! #### bound codec -/
 open DSV.Codec in
 def parseCls (s : String) : Option Cls :=
@@ -101,7 +159,8 @@ def handle (line : String) : String :=
   match splitWs line with
   | [] => "bad-op"
   | cmd :: args =>
-    if cmd.startsWith "flt." then handleFilter cmd args
+    if cmd = "flt.compile" then handleCompile args
+    else if cmd.startsWith "flt." then handleFilter cmd args
     else if cmd.startsWith "codec." then handleCodec cmd args
     else "bad-op"
 
